@@ -27,6 +27,7 @@ WITH THE SOFTWARE OR THE USE OR OTHER DEALINGS IN THE SOFTWARE.
 #include "Interpret.h"
 
 #include <api/smt2tokens.h>
+#include <common/InternalException.h>
 #include <logics/ArithLogic.h>
 #include <logics/LogicFactory.h>
 #include <rewriters/Substitutor.h>
@@ -380,6 +381,9 @@ void Interpret::interp(ASTNode& n) {
         notify_formatted(true, "%s", e.what());
     } catch (std::logic_error const & e) {
         // e.g. a model requested for a theory whose solver cannot produce one
+        notify_formatted(true, "%s", e.what());
+    } catch (InternalException const & e) {
+        // e.g. an interpolation algorithm that gives up
         notify_formatted(true, "%s", e.what());
     }
 }
